@@ -12,7 +12,7 @@ from petl.compat import pickle, next, text_type
 
 
 import petl.config as config
-from petl.comparison import comparable_itemgetter
+from petl.comparison import Comparable, comparable_itemgetter
 from petl.util.base import Table, asindices
 
 
@@ -576,23 +576,21 @@ def issorted(table, key=None, reverse=False, strict=False):
         flds = [text_type(f) for f in next(it)]
     except StopIteration:
         flds = []
+    if key is None:
+        # compare whole rows, as sort() does when no key is given
+        getkey = Comparable
+    else:
+        getkey = comparable_itemgetter(*asindices(flds, key))
     try:
         prev = next(it)
     except StopIteration:
         return True  # a table without data rows is trivially sorted
-    if key is None:
-        for curr in it:
-            if not op(curr, prev):
-                return False
-            prev = curr
-    else:
-        getkey = comparable_itemgetter(*asindices(flds, key))
-        prevkey = getkey(prev)
-        for curr in it:
-            currkey = getkey(curr)
-            if not op(currkey, prevkey):
-                return False
-            prevkey = currkey
+    prevkey = getkey(prev)
+    for curr in it:
+        currkey = getkey(curr)
+        if not op(currkey, prevkey):
+            return False
+        prevkey = currkey
     return True
 
 
